@@ -17,8 +17,8 @@ CHECKS = {
          "DESIGN.md §4 C17"),
  "C16": ("model_checking",
          "probabilistic explicit-state exploration: all generator scripts on a grid, rejection chain solved exactly",
-         "The real ExpRestricted01::sample is run under a scripted generator: every first-try value on a 2^20 (2^22) grid and every (u2,u3) pair on a 4096^2 (16384^2) grid behind a loop-forcing first word, plus all 8^5 scripts over extreme generator words and the 81 generator values around the accept/loop boundary 1/c1. The sampler is a 3-state Markov chain (first try / loop / output) whose output distribution is solved exactly from the enumerated transition masses and compared on 64 bin edges with (1-exp(-lambda t))/(1-exp(-lambda)) for ~50 (quick) / ~280 (thorough) rates from 1e-9 to 50; every output is checked to lie in [0,1). Decides the law up to the stated discretisation tolerance (observed error 1e-7..5e-5, tolerance 2.5e-4..1e-3 quick).",
-         "rand's Uniform<f64> word->value map (self-checked); tolerance max(1,0.2/P(accept))/N+1e-5; rates outside the list not explored",
+         "The real ExpRestricted01::sample is run under a scripted generator: every first-try value on a 2^20 (2^22) grid and every (u2,u3) pair behind a loop-forcing first word - u3 on N = 4096 (16384) midpoints, u2 on N midpoints for rates <= 1 and otherwise on N/4 midpoints of each of 2L geometric strata towards 0 and towards 1, weighted by their width -, plus all 8^5 scripts over extreme generator words and the 81 generator values around the accept/loop boundary 1/c1. The sampler is a 3-state Markov chain (first try / loop / output) whose output distribution is solved exactly from the enumerated transition masses and compared at the 64 quantiles of (1-exp(-lambda t))/(1-exp(-lambda)) for ~80 (quick) / ~300 (thorough) rates from 1e-300 to 1e9; every output is checked to lie in [0,1). Decides the law up to the stated discretisation tolerance (observed error <= 2e-4, tolerance 5e-4..1e-3 quick) for every rate alike; this resolution exposed the wrong law for rates above 709.78 that was then repaired.",
+         "rand's Uniform<f64> word->value map (self-checked); tolerance 2/N+1e-5 (one stratum) or 4/N+1e-5; rates outside the list not explored",
          "DESIGN.md §4 C16"),
  "C19": ("exploration",
          "exhaustive input-domain enumeration (all 2^32 arguments; structured sub-domains of 2^64)",
@@ -106,6 +106,30 @@ CHECKS = {
          "finite-population statements about the enumerated blocks (resolution ~3/sqrt(N)); known finding: MSE excess of the ProbMinHash3 family for m<=3 on sets of 2-3 items",
          "DESIGN.md §4 C01"),
 }
+
+# sentences appended to the level text: regimes added after seeding round 4 (see DESIGN.md 10.2)
+EXTRA = {
+ "C01": "Two shapes are repeated with all weights multiplied by 2^70, 2^-70, 1e15 and 2^600 through both entry points of every variant (J_P does not depend on the scale).",
+ "C02": "One 12-item set is run at signature lengths 65535, 65536 and 65537 through every order and entry point.",
+ "C03": "J = 1: for m in {4,8,12,16,32} every pair (x,y) of a rounding witness x (an item whose single-item f32 value is an exact integer, found by scanning 2^20 (2^22) items through the real code) and y from a 64-item block is streamed in 7 repeating / reordering patterns; all positions must equal those of [x,y]. This exposed and now guards the repaired order dependence of the f32 sketcher.",
+ "C04": "Sketch size 65537 (thorough: 65535, 65536 too) is run with all streams of length <= 2 (3) over two items and the burst, and the rounding-witness streams of C03 are run as order / repetition cases.",
+ "C05": "The join is also checked at sketch size 65537; refusal is checked on 116 parameter pairs x 2 register types from 32 ulp / 1e-12 relative upwards, and the receiver of a refused merge is compared with a twin over the rest of its stream.",
+ "C06": "The estimate is also compared across 5 ways of entering the items (item-wise, one slice, two slices, mixed) for all ordered selections of <= 3 of 8 items whose hashes are boundary values (0, 1, 2^64-1, 2^63, 2^32 ...) through the no-op hasher and Fnv.",
+ "C07": "36 collision configurations build the first sketch through a history: a merge with an incompatible sketcher attempted and refused halfway through the stream, reuse after reinit, merge of two half-stream sketchers.",
+ "C08": "144 structured-labelling configurations: no-op hasher, the two sets' own items related by one of 8 bit transformations (swap halves, rotate, reverse, complement ...), all three views against J.",
+ "C09": "sketch_slice = item-wise + end_sketch and the finishing-edge invariants are also checked on one stream at each of the sizes 255, 256, 257, 1000, 4097, 50000, 65535, 65536, 65537, 1000003, 3*2^20 (thorough: 2^24+1, 5*2^22).",
+ "C10": "12 pairs of sequences with runs of 2^8-1..2^8+1 and 2^16-1..2^16+1 occurrences of one element are run at l=1 against a closed form in the element counts (cross-checked against the ranking enumeration on all count vectors <= 3).",
+ "C11": "A third hasher configuration gives the symbols 64-bit hashes that agree pairwise on their low halves, high halves or xor-fold.",
+ "C12": "The slice entry point of the f32 densified sketchers is run 38 times under rayon pools of 1, 2, 4 and 16 workers on a 3e5-item slice whose minimum is a tie between two items (schedule sampling).",
+ "C13": "Per sketcher type, one instance lives through c reset cycles for every c in 254..258 and 65534..65538 before the comparison with a fresh instance; fixed histories are also run at size 65537.",
+ "C14": "The slice-taking functions are also run on every pair of sub-slices of one buffer (aliased arguments), and all functions on sketches of 65535, 65536, 65537 and 2^24+3 positions.",
+ "C15": "Beyond the closed spaces, every m in 9..300, 2^k-1..2^k+1 (k=9..17), 1000, 5000, 50000, 100003 (thorough: ~2^20, 3000001) gets one structured six-phase history with every step checked against an ordered multiset of slot minima, and m in {1,2,3,5,8} gets 70000 (updates, reset) cycles.",
+ "C17": "Long runs under one patterned script: >= 70000 draws without reset and >= 66000 (draws, reset, m draws compared with a fresh instance) cycles for m in {1,2,3,5,255,256,257}; two full blocks for m in {65535,65536,65537,100003}.",
+ "C18": "Vector lengths 255..257 and 65535..65537 are included.",
+ "C20": "Dump histories in one directory: all ordered pairs over a 288-tuple neighbour alphabet (fields a few ulp or a tiny absolute amount apart) that differ in one field, a fifth (all) of the others, all triples over 8 values of a; the reload returns the last tuple dumped.",
+}
+for _k, _v in EXTRA.items():
+    _t = list(CHECKS[_k]); _t[2] = _t[2] + " " + _v; CHECKS[_k] = tuple(_t)
 PENDING_REASON = "check not built yet in this revision (see DESIGN.md §4 for the planned model-checking approach)"
 
 def main():
